@@ -3902,4 +3902,90 @@ theorem rows_swapEdges_perm (env : SpecEnv) (q : Query) (p : Path) (j : Nat) (E1
   rw [← e]
   exact hl.map rowOf
 
+
+/-! ### `negateFilter` on a filter just added is the addition of the complement -/
+
+theorem modify_congr_at {α : Type} (l : List α) (j : Nat) (f g : α → α)
+    (h : ∀ x, l[j]? = some x → f x = g x) : l.modify j f = l.modify j g := by
+  induction l generalizing j with
+  | nil => simp
+  | cons a l ih =>
+    cases j with
+    | zero => simp [List.modify_zero_cons, h a (by simp)]
+    | succ j => simp only [List.modify_succ_cons]; rw [ih j (fun x hx => h x (by simpa using hx))]
+
+theorem onChild_comp (f g : QNode → QNode) : onChild f ∘ onChild g = onChild (f ∘ g) := by
+  funext fld; cases fld <;> rfl
+
+theorem modNode_comp (f g : QNode → QNode) (p : Path) (n : QNode) :
+    modNode f p (modNode g p n) = modNode (f ∘ g) p n := by
+  induction p generalizing n with
+  | nil => rfl
+  | cons i p ih =>
+    obtain ⟨ct, fields⟩ := n
+    simp only [modNode, List.modify_modify_eq, onChild_comp]
+    congr 1
+    apply modify_congr_at
+    intro x _
+    cases x with
+    | prop nm dirs => rfl
+    | edge nm ps k c => simp [onChild, ih]
+
+/-- `modNode` only looks at what its function does to the node at the end of the path. -/
+theorem modNode_congr_at (f g : QNode → QNode) (p : Path) (n : QNode)
+    (h : ∀ t, descend anyKind p n = some t → f t = g t) : modNode f p n = modNode g p n := by
+  induction p generalizing n with
+  | nil => exact h n rfl
+  | cons i p ih =>
+    obtain ⟨ct, fields⟩ := n
+    simp only [modNode]
+    congr 1
+    apply modify_congr_at
+    intro x hx
+    cases x with
+    | prop nm dirs => rfl
+    | edge nm ps k c =>
+      simp only [onChild]
+      congr 1
+      apply ih
+      intro t ht
+      apply h
+      simp [descend, hx, anyKind, ht]
+
+theorem modify_insert_at {α : Type} (l : List α) (k : Nat) (x : α) (g : α → α) (hk : k ≤ l.length) :
+    (l.take k ++ [x] ++ l.drop k).modify k g = l.take k ++ [g x] ++ l.drop k := by
+  induction l generalizing k with
+  | nil =>
+    have : k = 0 := by simpa using hk
+    subst this; simp [List.modify_zero_cons]
+  | cons a l ih =>
+    cases k with
+    | zero => simp [List.modify_zero_cons]
+    | succ k =>
+      have := ih k (by simpa using hk)
+      simp only [List.append_assoc, List.singleton_append] at this ⊢
+      simp only [List.take_succ_cons, List.drop_succ_cons, List.cons_append, List.modify_succ_cons, this]
+
+theorem negateFilter_addFilter (p : Path) (j k : Nat) (op nop : FOp) (arg : QArg) (q : Query)
+    (hneg : negOp op = some nop)
+    (hk : ∀ nm dirs, fieldAt p j q.root = some (.prop nm dirs) → k ≤ dirs.length) :
+    negateFilter p j k (addFilter p j k op arg q) = addFilter p j k nop arg q := by
+  simp only [negateFilter, addFilter, onQuery]
+  congr 1
+  rw [modNode_comp]
+  apply modNode_congr_at
+  intro t ht
+  obtain ⟨ct, fields⟩ := t
+  simp only [Function.comp, modField, List.modify_modify_eq]
+  congr 1
+  apply modify_congr_at
+  intro x hx
+  cases x with
+  | edge nm ps kd c => rfl
+  | prop nm dirs =>
+    have hkd : k ≤ dirs.length := hk nm dirs (by simp [fieldAt, ht, fieldsOf, hx])
+    simp only [Function.comp, addFilterF, modDirF]
+    rw [modify_insert_at dirs k _ negDirD hkd]
+    simp [negDirD, hneg]
+
 end TF.SpecMeta
